@@ -1,7 +1,8 @@
 (* C12 — property theorems only.  Each is closed by [exact] of a lemma from
-   Proofs.v; the driver pins the statements with [Check] and prints the
+   Proofs*.v; the driver pins the statements with [Check] and prints the
    assumptions on every run. *)
-From Yv Require Import Common.Base C12.Model C12.Spec C12.Proofs.
+From Yv Require Import Common.Base C12.Model C12.Spec C12.Script.
+From Yv Require Import C12.Proofs C12.ProofsId C12.ProofsScript.
 
 Theorem inv_init : Inv empty.
 Proof. exact inv_empty. Qed.
@@ -29,8 +30,9 @@ Theorem pid_designates_one_job : forall s i1 i2 j1 j2,
   Inv s -> get s i1 = Some j1 -> get s i2 = Some j2 -> jpid j1 = jpid j2 -> i1 = i2.
 Proof. exact pid_designates_one_job_l. Qed.
 
-(* the run-time oracle asks no more than the invariant gives *)
-Theorem inv_obs_sound : forall s pids, Inv s -> inv_obs (observe pids s) = true.
+(* the run-time oracle asks no more than the invariant gives (this includes
+   the job-ID clauses: resolution and parsing) *)
+Theorem inv_obs_sound : forall s pids ids, Inv s -> inv_obs (observe pids ids s) = true.
 Proof. exact inv_obs_sound_l. Qed.
 
 (* current job exists in a non-empty table; with two jobs a distinct previous job *)
@@ -40,13 +42,74 @@ Theorem current_previous_spec : forall s, Inv s ->
                              current_job s <> Some p).
 Proof. exact current_previous_spec_l. Qed.
 
+(* JobId::find: in every state satisfying the invariant, % %% %+ designate the
+   current job (which exists iff the table is non-empty), %- the previous job
+   (which exists iff there are two jobs, and is not the current one), %n the
+   job in slot n-1 iff that slot is occupied, %name / %?name the unique job
+   whose name starts with / contains the text, NotFound if there is none and
+   Ambiguous if there are two *)
+Theorem jobid_resolution : forall s id, Inv s -> designates s id (find_job s id).
+Proof. exact find_job_designates. Qed.
+
+(* ... hence after every history *)
+Theorem jobid_resolution_reachable : forall ops id,
+  ops_ok empty ops = true -> designates (run ops) id (find_job (run ops) id).
+Proof. exact jobid_resolution_reachable_l. Qed.
+
+(* %n keeps designating the same process across every operation (removals of
+   other jobs included) for as long as that process has a job *)
+Theorem jobid_number_stable : forall s o i j i',
+  Inv s -> op_ok s o = true -> get s i = Some j ->
+  find_by_pid (step s o) (jpid j) = Some i' ->
+  find_job (step s o) (IdNumber (N.of_nat (S i))) = Found i /\
+  exists j', get (step s o) i = Some j' /\ jpid j' = jpid j.
+Proof. exact jobid_number_stable_l. Qed.
+
+(* parse_tail: what the text after '%' is parsed to satisfies the documented
+   relation (the oracle's clause 9) *)
+Theorem parse_tail_sound : forall t, parse_rel t (parse_tail t) = true.
+Proof. exact parse_rel_sound_l. Qed.
+
+(* the name tests of the model are prefix / substring *)
+Theorem name_tests_spec : forall p n,
+  (starts_with p n = true <-> exists r, n = p ++ r) /\
+  (str_contains p n = true <-> exists a b, n = a ++ p ++ b).
+Proof. exact name_tests_spec_l. Qed.
+
+(* the oracle's own resolution of a job ID on an observed table is the model's *)
+Theorem resolve_obs_sound : forall pids ids s id,
+  resolve_obs (observe pids ids s) id = find_job s id.
+Proof. exact resolve_obs_observe. Qed.
+
+(* scripts: the operations a command induces on the model keep the invariant *)
+Theorem script_step_inv : forall cmd a tgt s,
+  Inv s -> async_ok cmd a s = true -> Inv (structural cmd a tgt s).
+Proof. exact structural_inv_l. Qed.
+
 (* without the precondition (inserting a pid whose job is still alive) the
    observable invariant fails: the table has two jobs but no previous job *)
 Example insert_live_pid_breaks_inv :
-  inv_obs (observe [10; 11]%Z
-             (run [OInsert 10 Running; OInsert 11 (Stopped 19); OInsert 11 (Stopped 19)]))
+  inv_obs (observe [10; 11]%Z []
+             (run [OInsert 10 Running []; OInsert 11 (Stopped 19) []; OInsert 11 (Stopped 19) []]))
   = false.
 Proof. exact insert_live_pid_breaks_inv_l. Qed.
+
+(* non-vacuity of the job-ID theorems, and the gap scenario: jobs 1, 2, 3
+   exist, job 1 is removed; %2 and %3 still designate slots 1 and 2 *)
+Example jobid_gap_example :
+  let ops := [OInsert 10 Running [97]; OInsert 11 Running [97; 98];
+              OInsert 12 (Stopped 19) [99; 97]; ORemove 0]%N in
+  ops_ok empty ops = true /\
+  find_job (run ops) (IdNumber 1) = NotFound /\
+  find_job (run ops) (IdNumber 2) = Found 1 /\
+  find_job (run ops) (IdNumber 3) = Found 2 /\
+  find_job (run ops) (parse_tail [ch_plus; 51]%N) = Found 2 /\
+  find_job (run ops) (IdPrefix [97]%N) = Found 1 /\
+  find_job (run ops) (IdSubstr [97]%N) = Ambiguous /\
+  find_job (run ops) (IdPrefix [98]%N) = NotFound /\
+  find_job (run ops) IdCurrent = Found 2 /\
+  find_job (run ops) IdPrevious = Found 1.
+Proof. exact jobid_gap_example_l. Qed.
 
 Print Assumptions inv_init.
 Print Assumptions inv_step.
@@ -56,4 +119,12 @@ Print Assumptions job_number_stable.
 Print Assumptions pid_designates_one_job.
 Print Assumptions inv_obs_sound.
 Print Assumptions current_previous_spec.
+Print Assumptions jobid_resolution.
+Print Assumptions jobid_resolution_reachable.
+Print Assumptions jobid_number_stable.
+Print Assumptions parse_tail_sound.
+Print Assumptions name_tests_spec.
+Print Assumptions resolve_obs_sound.
+Print Assumptions script_step_inv.
 Print Assumptions insert_live_pid_breaks_inv.
+Print Assumptions jobid_gap_example.
